@@ -10,15 +10,17 @@ from idpyoidc.message.oidc import AuthorizationRequest
 RULE = ("cases: sequences of logins of several users (ASCII, Unicode, hex-like identifiers) at seven clients — two public, three pairwise (two "
         "sharing a registered sector id, one in another sector), one pairwise without sector id (redirect host is the sector), one ephemeral — "
         "through the real authorization and token endpoints with JWT access tokens; sub read from the ID token, userinfo, the JWT access "
-        "token and introspection. The Lean model yields the hash preimage for each login; the harness applies sha256 (hashlib) and compares; "
+        "token and introspection; one user's directory entry carries an attribute named sub; the provider is run with scope-derived claims "
+        "off and on at every release point; some authorization requests carry a sector_identifier_uri of their own. The Lean model yields the hash preimage for each login; the harness applies sha256 (hashlib) and compares; "
         "oracle: four views equal, stable across logins, public equal across clients, pairwise equal within / different between sectors, "
         "ephemeral different per grant, user id not contained in sub. non-trivial: login at a non-public client or a repeated login")
 MODELLED = ("modelled: public_id / pairwise_id / ephemeral_id, the subject type and sector selection in Authorization.create_session, the four "
             "publication points' treatment of sub. NOT modelled: SHA-256 (parameter H, injectivity a hypothesis), uuid4")
-ASSUMPTIONS = ["no user attribute named 'sub' is released (forced hypothesis of sub_consistent; counter-example theorem)"]
+ASSUMPTIONS = ["SHA-256 is injective on the preimages that occur (hypothesis of the theorems that need it)"]
 
-_srv = None
+_srv = {}
 USERS = ["diana", "bob", "zoë", "deadbeef00", "用户"]
+LOCAL_SUB = {"bob": "bob-local-account"}        # the user directory has an attribute called sub for this user
 CL = {
     "cP1": {"type": None, "sector": None}, "cP2": {"type": "public", "sector": None},
     "cW1": {"type": "pairwise", "sector": "https://s1.example.org/si.json"}, "cW2": {"type": "pairwise", "sector": "https://s1.example.org/si.json"},
@@ -27,13 +29,19 @@ CL = {
 }
 
 
-def server():
-    global _srv
-    if _srv is None:
-        _srv = opbase.make_op(jwt_tokens=True)
-        ctx = _srv.context
+def server(byscope=False):
+    if byscope not in _srv:
+        s = _srv[byscope] = opbase.make_op(jwt_tokens=True)
+        ctx = s.context
+        if byscope:
+            # scope-derived claims at every release point (openid maps to sub)
+            th = ctx.session_manager.token_handler
+            for mod in (th["access_token"], th["id_token"], s.get_endpoint("introspection"), s.get_endpoint("userinfo")):
+                mod.kwargs["add_claims_by_scope"] = True
         for u in USERS:
             ctx.userinfo.db.setdefault(u, {"name": u.title(), "email": u + "@example.org"})
+            if u in LOCAL_SUB:
+                ctx.userinfo.db[u]["sub"] = LOCAL_SUB[u]
         for cid, c in CL.items():
             rec = dict(ctx.cdb["client_1"], client_id=cid, redirect_uris=[(f"https://{cid.lower()}.example.com/cb", None)])
             if c["type"]:
@@ -42,7 +50,7 @@ def server():
                 rec["sector_id"] = c["sector"]
             ctx.cdb[cid] = rec
             ctx.keyjar.add_symmetric(cid, rec["client_secret"])
-    return _srv
+    return _srv[byscope]
 
 
 def cases(rng, tier):
@@ -52,8 +60,10 @@ def cases(rng, tier):
         users = rng.sample(USERS, rng.randint(1, 3))
         logins = [[rng.choice(users), rng.choice(list(CL))] for _ in range(rng.randint(3, 8))]
         # a third element marks a login that presents the session cookie of the previous login of the same user at the same client (SSO)
-        logins = [l + ([True] if l in logins[:i] and rng.random() < 0.6 else []) for i, l in enumerate(logins)]
-        out.append({"t": "seq", "logins": logins})
+        logins = [l + ([True] if l in logins[:i] and rng.random() < 0.6 else [False]) for i, l in enumerate(logins)]
+        # a fourth element: the request carries a sector_identifier_uri of its own (it is a registration parameter, not a request parameter)
+        logins = [l + [rng.choice([None, None, "https://s1.example.org/si.json", "https://s2.example.org/si.json", "https://evil.example/si.json"])] for l in logins]
+        out.append({"t": "seq", "logins": logins, "byscope": rng.random() < 0.5})
     return out
 
 
@@ -63,16 +73,19 @@ def _payload(jwt):
 
 
 def impl(c):
-    s = server()
+    s = server(c.get("byscope", False))
     ctx = s.context
     az, tk, ui, it = (s.get_endpoint(x) for x in ("authorization", "token", "userinfo", "introspection"))
     salt = ctx.session_manager.get_salt()
     res = []
     cookies = {}
-    for n, (user, cid, *sso) in enumerate(c["logins"]):
+    for n, (user, cid, *more) in enumerate(c["logins"]):
+        sso = bool(more and more[0])
+        req_sector = more[1] if len(more) > 1 else None
         ctx.authn_broker.db["anon"]["method"].user = user
         red = f"https://{cid.lower()}.example.com/cb"
-        req = AuthorizationRequest(client_id=cid, redirect_uri=red, scope=["openid", "email"], state=f"st{n}", response_type="code", nonce=f"n{n}")
+        extra = {"sector_identifier_uri": req_sector} if req_sector else {}
+        req = AuthorizationRequest(client_id=cid, redirect_uri=red, scope=["openid", "email"], state=f"st{n}", response_type="code", nonce=f"n{n}", **extra)
         try:
             hi = {"cookie": cookies[(user, cid)]} if sso and (user, cid) in cookies else None
             out = az.process_request(az.parse_request(req.to_dict(), http_info=hi), http_info=hi)
@@ -95,18 +108,28 @@ def impl(c):
 
 def model_lines(c, obs):
     lines = []
-    for user, cid, *_ in c["logins"]:
+    for (user, cid, *_), r in zip(c["logins"], obs["logins"]):
         cl = CL[cid]
         sec = "none" if cl["sector"] is None else "some:" + enc_str(cl["sector"])
         lines.append("\t".join(["sub", "pre", cl["type"] or "absent", enc_str(user), sec, enc_str(f"{cid.lower()}.example.com"), enc_str(obs["salt"])]))
+        if r["r"] == "ok":
+            # the four views of this grant's subject, given what the directory holds under the name sub (released when by-scope claims are on)
+            attr = "some:" + enc_str(LOCAL_SUB[user]) if (user in LOCAL_SUB and c.get("byscope")) else "none"
+            lines.append("\t".join(["sub", "views", enc_str(r["views"]["id_token"]), attr]))
     return lines
 
 
 def compare(c, obs, outs):
     d = []
-    for (user, cid, *_), r, o in zip(c["logins"], obs["logins"], outs):
+    k = 0
+    for (user, cid, *_), r in zip(c["logins"], obs["logins"]):
+        o = outs[k]; k += 1
         if r["r"] != "ok":
             d.append(f"login {user}@{cid} failed: {r}"); break
+        mv = [dec_str(x) for x in outs[k].split("\t")]; k += 1
+        iv = [r["views"][x] for x in ("id_token", "userinfo", "jwt_access", "introspection")]
+        if mv != iv:
+            d.append(f"{user}@{cid}: views model={[x[:14] for x in mv]} impl={[str(x)[:14] for x in iv]}"); break
         if o == "fresh":
             continue
         pre = dec_str(o.split("\t")[1])
@@ -127,7 +150,7 @@ def oracle(c, obs):
         if len(set(vs.values())) != 1:
             v.append({"cls": "views-disagree", "views": vs})
         sub = vs["id_token"]
-        if user in sub:
+        if user in sub or any(LOCAL_SUB.get(user, "\0") in str(x) for x in vs.values()):
             v.append({"cls": "user-id-in-clear"})
         seen.setdefault((user, cid), []).append(sub)
     for (user, cid), subs in seen.items():
